@@ -73,6 +73,7 @@ def judge(rep, c, line, res):
             "out_has_dollar": "$" in o1 or "$" in o2, "out_has_backslash": "\\" in o1, "out_lead_blank": o1.startswith(" "),
             "out_trail_blank": o1.rstrip("\n").endswith(" "), "out_inner_newline": "\n" in o1.rstrip("\n"),
             "out_blank": " " in o1.strip(), "out": o1, "out2": o2,
+            "out_quoted": len(o1.rstrip("\n")) >= 2 and o1.rstrip("\n")[0] in "'\"" and o1.rstrip("\n")[-1] == o1.rstrip("\n")[0],
             "bq_leading_more": c["sp"] == "bq" and c["ctx"] in ("unq", "here") and not chars(c["pre"]) and (bool(chars(c["post"])) or c["two"])}
     case = {"case": c, "text": line, "vh": {"out.1": o1, "out.2": o2}, "status": res.get("status"), "stderr": res.get("stderr", "")[-300:],
             "log": res.get("log")}
